@@ -1,12 +1,12 @@
 CONSTANTS
   Certs = {"x1", "x3", "p1"}
   ChainOf <- MCChainOf
-  NoCache = TRUE
-  Cap = 0
+  NoCache = FALSE
+  Cap = 1
   MaxTree = 2
   MaxFaults = 1
   Depth = 0
-  Dialect = "memory"
+  Dialect = "postgresql"
 INIT Init
 NEXT Next
 VIEW StateView
